@@ -23,6 +23,7 @@ class Gen:
         self.sites = {}         # method -> list of (args per param name: class or None)
         self.checks = []        # (row, kind, data)
         self.known = {}         # row -> predicate of the known finding covering a deviation there
+        self.maxdepth = 1       # forwarding chains: how many methods pass the value on
 
     def emit(self, s, ind=0):
         self.lines.append("  " * ind + s)
@@ -86,7 +87,30 @@ class Gen:
         for m in self.methods:
             for site in self.sites[m["name"]]:
                 placements.append((rng.choice(["before", "after", "after", "inside"]), m, site))
+        # forwarding chains: a value of a further class reaches the FIRST parameter of a method through 1-3 methods that pass it on;
+        # each forwarder is defined above or below the method it calls
+        self.chains = []
+        for m in self.methods:
+            if rng.random() < 0.35 and m["params"][0][1] == "req" and len([1 for (_, kd, _) in m["params"] if kd in ("req", "key")]) == 1:
+                depth = rng.randint(1, self.maxdepth)
+                used = set(site.get(m["params"][0][0]) for site in self.sites[m["name"]])
+                extra = [c for c in LIT if c not in used]
+                if not extra:
+                    continue
+                cls = rng.choice(extra)
+                self.chains.append({"target": m, "depth": depth, "cls": cls, "above": [rng.random() < 0.5 for _ in range(depth)]})
+                self.sites[m["name"]].append({m["params"][0][0]: cls})      # counts as a call site of the target's first parameter
+
+        def forwarder_lines(ch, level):
+            callee = ch["target"]["name"] if level == 0 else "fw_%s_%d" % (ch["target"]["name"], level - 1)
+            return ["def fw_%s_%d(y%d)" % (ch["target"]["name"], level, level), "  %s(y%d)" % (callee, level), "end"]
+
         callrows = []
+        for ch in self.chains:
+            for level in range(ch["depth"]):
+                if ch["above"][level]:
+                    for l in forwarder_lines(ch, level):
+                        self.emit(l)
         for when, m, site in placements:
             if when == "before":
                 v = "r%d" % len(callrows)
@@ -120,6 +144,12 @@ class Gen:
                 self.emit("return %s if %s" % (LIT[m["litclass"]][0], first), 1)
                 self.emit(first, 1)
             self.emit("end")
+        for ch in self.chains:
+            for level in range(ch["depth"]):
+                if not ch["above"][level]:
+                    for l in forwarder_lines(ch, level):
+                        self.emit(l)
+            self.emit("fw_%s_%d(%s)" % (ch["target"]["name"], ch["depth"] - 1, LIT[ch["cls"]][0]))
         inside = [(m, site) for when, m, site in placements if when == "inside"]
         if inside:
             self.emit("def um_caller")
@@ -162,7 +192,10 @@ class Gen:
                     self.checks.append((m["oprow"], "silent", m["op"]))
                 elif not any(self.defines(c, m["op"]) for c in cs):
                     self.checks.append((m["oprow"], "reported", m["op"]))
+        chained = set(ch["target"]["name"] for ch in self.chains)
         for r, m in callrows:
+            if m["name"] in chained and m["result"] != "lit":
+                continue
             self.checks.append((r, "returns", sorted(m["ret"])))
         for m in self.methods:
             if m["k32"]:
